@@ -50,3 +50,11 @@ GROUPS = [
     for k, nm, fns in [(0, "next_field", ["ILLmps_next_field", "mps_skip_comment"]), (1, "check_eol", ["ILLmps_check_end_of_line"]), (2, "next_coef", ["ILLmps_next_coef", "get_double"]),
                        (3, "next_line", ["ILLmps_next_line"]), (4, "next_bound", ["ILLmps_next_bound"])]
 ]
+
+GROUPS += [
+    Group("rawlp/mps_bounds", "rawlp_bounds.c", tus=["mps_mpq.c", "rawlp_mpq.c", "allocrus.c"], model=MODEL, dfcc=False, export_static=True, unwind=6, kind="bounded", namebuf=512, timeout=1200,
+          bound="every sequence of at most 3 MPS bound records (LO UP FX FR MI PL BV UI LI) with values in -2..2 on 2 columns, each column integer-marked or not beforehand; loops completely unwound",
+          flags=["--no-malloc-may-fail"], must_fail=["reach_end", "reach_negative_upper_only", "reach_integer_without_bounds"],
+          functions=["mps_set_bound", "ILLraw_set_lowerBound", "ILLraw_set_upperBound", "ILLraw_set_fixedBound", "ILLraw_set_unbound", "ILLraw_set_binaryBound", "ILLraw_init_bounds", "ILLraw_fill_in_bounds"],
+          props=["C10", "C17"], assumed=["rawlp/mps_bounds: static mps_set_bound called through goto-cc --export-file-local-symbols; ILLmps_warn is a counter"]),
+]
